@@ -455,6 +455,36 @@ def run_verify(env, case):
     return (not honest) or len(msg) != 32 or aux is None, classes
 
 
+# ------------------------------------------------------------------ every single-bit flip of one honest signature
+@st.composite
+def flips_case(draw):
+    return {"sk": draw(key_st()), "msg": draw(msg_spec(maxlen=600)), "aux": draw(aux_st)}
+
+
+def run_flips(env, case):
+    lib = env.lib
+    sk = case["sk"]
+    msg = expand_msg(case["msg"])
+    aux = bytes.fromhex(case["aux"]) if case.get("aux") is not None else None
+    sig = bip340.sign(sk, msg, aux)
+    pk32 = ec.xbytes(ec.mulg(sk))
+    lib.reset()
+    r, xpk = lib.xonly_parse(pk32)
+    env.require(r == 1, "xonly_pubkey_parse refused a valid key")
+    env.require(lib_verify(env, sig, msg, xpk) == 1, "reference-made honest signature rejected", sig=sig)
+    acc = 0
+    for pos in range(512):
+        t = bytearray(sig)
+        t[pos // 8] ^= 1 << (pos % 8)
+        t = bytes(t)
+        expect = bip340.verify(pk32, msg, t)
+        got = lib_verify(env, t, msg, xpk)
+        env.require(got == (1 if expect else 0), "verdict %d for the honest signature with bit %d flipped, BIP-340 says %d" % (got, pos, expect), sig=t, pk=pk32)
+        acc += got
+    env.require(lib.illegal() == 0 and lib.errors() == 0, "callback fired: " + lib.cbmsg())
+    return True, ["all_512_flips", "flip_accepted" if acc else "all_flips_rejected"]
+
+
 # ------------------------------------------------------------------ boundary x-only keys with arbitrary signatures
 @st.composite
 def xonly_case(draw):
@@ -543,19 +573,24 @@ def run_small(env, case):
 
 
 SMALL = {"quick": ["small13", "small199"], "thorough": ["small13", "small199"]}
-FULL = {"quick": ["prod", "vsan"], "thorough": ["prod", "vsan", "int64", "struct"]}
+FULL = {"quick": ["prod"], "thorough": ["prod", "int64", "struct"]}
+# the sanitizer build runs Python itself under ASan (Hypothesis generation is ~10x slower there): separate, smaller budgets
+VSAN = {"quick": ["vsan"], "thorough": ["vsan"]}
+BOTH = {"quick": ["prod", "vsan"], "thorough": ["prod", "vsan"]}
 
 TESTS = [
-    Test("sign", sign_case, run_sign, quick=6000, thorough=120000, cfgs=FULL,
+    Test("sign", sign_case, run_sign, quick=5000, thorough=120000, cfgs=FULL,
          must_cover=["entry:sign32", "entry:custom_null", "entry:custom_fpnull", "entry:custom_fp340", "entry:custom_pycb", "aux:none", "aux:zero", "aux:set",
                      "pk_even", "pk_odd", "len=0", "len<=300", "len<=1000", "len>1000"]),
-    Test("lengths", lengths_enum, run_length, kind="enum", cfgs={"quick": ["prod", "vsan"], "thorough": ["prod", "vsan"]}, max_workers=4,
-         must_cover=["len_enum"]),
-    Test("verify", verify_case, run_verify, quick=16000, thorough=600000, cfgs=FULL,
+    Test("sign_vsan", sign_case, run_sign, quick=300, thorough=6000, cfgs=VSAN, must_cover=["aux:none", "len>1000"]),
+    Test("lengths", lengths_enum, run_length, kind="enum", cfgs=BOTH, max_workers=4, must_cover=["len_enum"]),
+    Test("verify", verify_case, run_verify, quick=14000, thorough=250000, cfgs=FULL,
          must_cover=["accept", "reject", "r>=p", "r_offcurve", "s>=n", "long_msg", "mut:honest", "mut:odd_y_twin", "mut:R_inf", "mut:bitflip_sig",
                      "mut:msg_tail", "mut:msg_trunc", "mut:other_key", "pk_parse_reject"]),
-    Test("xonly_boundary", xonly_case, run_xonly, quick=1500, thorough=40000, cfgs={"quick": ["prod", "vsan"], "thorough": ["prod", "vsan"]},
+    Test("verify_vsan", verify_case, run_verify, quick=700, thorough=15000, cfgs=VSAN, must_cover=["accept", "reject", "s>=n"]),
+    Test("bitflips", flips_case, run_flips, quick=12, thorough=400, cfgs=BOTH, must_cover=["all_512_flips"]),
+    Test("xonly_boundary", xonly_case, run_xonly, quick=1500, thorough=40000, cfgs=FULL,
          must_cover=["x>=p", "x_on_curve", "x_off_curve", "reject"]),
-    Test("small_group", small_case, run_small, quick=3000, thorough=60000, cfgs=SMALL,
+    Test("small_group", small_case, run_small, quick=2500, thorough=60000, cfgs=SMALL,
          must_cover=["honest_ok", "s_plus_k_order_rejected", "order=13", "order=199"]),
 ]
